@@ -14,6 +14,7 @@ import QSP.Model.Accuracy
 import QSP.Model.FPSearch
 import QSP.Model.Pipeline
 import QSP.Model.Cli
+import QSP.Model.Interleave
 open QSP QSP.Proto
 
 def bad : String := "bad-op"
@@ -342,6 +343,10 @@ def handle (toks : List String) : String :=
     match dispatchNamed cmd (if name = "-" then none else some name) with
     | none => "help"
     | some d => s!"{",".intercalate d.generators}|{d.argsFrom}|{",".intercalate (d.genKw.map fun kv => kv.1 ++ "=" ++ kv.2)}|{d.callsPhaseFinder}"
+  | ["pq.interleave", pre, pim, qre, qim] =>
+    match parseRatList pre, parseRatList pim, parseRatList qre, parseRatList qim with
+    | some a, some b, some c, some d => let r := interleavePQ a b c d; s!"{showRatList r.1} {showRatList r.2}"
+    | _, _, _, _ => bad
   -- sup-norm certificate -----------------------------------------------------------------
   | ["sup.real", bnd, depth, d, l] =>
     match parseRat bnd, depth.toNat?, d.toInt?, parseRatList l with
